@@ -30,6 +30,7 @@ def run(rep, tier):
     best_of_two(rep, F)
     interior_point(rep, F)
     closest_tables(rep, F, tier)
+    scan_line_height(rep, F)
     # "Intersection(p) exactly when p intersects g": the point-in-geometry kernels that closest_point's guard resolves to (tables shared with C02)
     from . import c02_kernels, c02_linear
     c02_kernels.run(rep, F, tier, only={"Triangle∩Coord", "Line∩Coord", "Rect∩Coord", "ring-step", "polygon-composition"}, rule="R12.4")
@@ -435,3 +436,64 @@ def closest_tables(rep, F, tier="quick"):
             n_ok += 1
             rep.ok("R12.5", "closest:%s[%d witnesses]" % (key, k))
     rep.floor("R12.5", "closest_point tables", n_ok, 12)
+
+
+def scan_line_height(rep, F):
+    """R12.6: the height of the polygon interior point's scan line, as a polynomial in the bounding box and the next-closest vertex height:
+    either the mid-height y0 = (min.y + max.y) / 2 of the bounding box, or, when a vertex sits exactly there, a point strictly between y0 and
+    the height c of the next-closest vertex: y0 + k * (c - y0) with a constant 0 < k < 1.  Anything else can leave the polygon's y-range or
+    land on another vertex, and the fall-back then returns a boundary point."""
+    from ..poly import from_term, R, P, sym
+    rep.rule("R12.6", "polygon interior point: the scan line's height is the bounding box's mid-height y0, or y0 + k*(c - y0) with a constant 0 < k < 1 for the height c of the next-closest vertex (polynomial identity on every path)")
+    try:
+        fn = F.one(r"^geo::algorithm::interior_point::polygon_interior_point_with_segment_length$", crates=("geo",))
+        ps = Symex(F, inline_crates=(), loop_bound=1, max_paths=5000).run(fn)
+    except (KeyError, Unanalysable) as e:
+        rep.bad("R12.6", "scan-height:anchor", str(e))
+        return
+    ys = {}
+    for p in ps:
+        for e in p.trace:
+            if e[0] == "call" and e[1].endswith("Line::<T>::new") and len(e[2]) == 2:
+                for c in e[2]:
+                    if c[0] == "adt" and c[1].endswith("coord::Coord") and len(c[3]) == 2:
+                        ys[show(c[3][1])] = c[3][1]
+    if not ys:
+        rep.bad("R12.6", "scan-height:none", "no scan line (Line::new of two coordinates) found on any path", where=fn.loc())
+        return
+    leaves = {}
+
+    def leaf(t):
+        s_ = show(t)
+        if re.search(r"min\(.*bounding_rect.*\)\.y$", s_) and "max(" not in s_:
+            return "ymin"
+        if re.search(r"max\(.*bounding_rect.*\)\.y$", s_) and "min(" not in s_.split("bounding_rect")[0]:
+            return "ymax"
+        leaves.setdefault(s_, "L%d" % len(leaves))
+        return leaves[s_]
+    y0 = (R(sym("ymin")) + R(sym("ymax"))) / R(P(2))
+    n_mid = n_adj = 0
+    for s_, t in ys.items():
+        try:
+            r = from_term(t, leaf)
+        except ValueError as e:
+            rep.bad("R12.6", "scan-height:term", "height %s is not an arithmetic term: %s" % (s_[:100], e), where=fn.loc())
+            return
+        if r.equals(y0):
+            n_mid += 1
+            continue
+        ok = False
+        for name in set(leaves.values()):
+            c = R(sym(name))
+            for k in (R(P(1)) / R(P(2)), R(P(1)) / R(P(3)), R(P(2)) / R(P(3)), R(P(1)) / R(P(4)), R(P(3)) / R(P(4))):
+                if r.equals(y0 + k * (c - y0)):
+                    ok = True
+        if ok:
+            n_adj += 1
+        else:
+            rep.bad("R12.6", "scan-height:formula", "the scan line is placed at %s, which is neither the bounding box's mid-height nor a point strictly between it and the next-closest vertex height" % s_[:220], where=fn.loc())
+            return
+    if n_mid and n_adj:
+        rep.ok("R12.6", "scan-height[mid-height and %d adjusted form(s)]" % n_adj)
+    else:
+        rep.bad("R12.6", "scan-height:rows", "expected both the mid-height and the adjusted height among the scan lines, found %d / %d" % (n_mid, n_adj), where=fn.loc())
